@@ -98,7 +98,7 @@ def fam_depfile():
          change(b, "plain-depfile", "C1", "deps-gcc-becomes-depfile", deps="depfile"),
          change(b, "declared", "C1", "discovered-becomes-explicit", ins=["s1", "s2"], extras=[], deps=None),
          change(b, "other-extra", "C1", "discovered-input-replaced", extras=["s3"])]
-    return Family("depfile", v, ["s1", "s2", "s3"], ["o1", "o2"], ["", "o1"], quick=True)
+    return Family("depfile", v, ["s1", "s2", "s3"], ["o1", "o2"], ["", "o1"], quick=True, quick4=True)
 
 
 def fam_multi():
